@@ -108,14 +108,14 @@ type cacheEntry struct {
 	v          pool.Buffer
 }
 
-var cacheEntryPool = sync.Pool{
-	New: func() any { return new(cacheEntry) },
-}
-
 func newCacheEntry() *cacheEntry {
-	return cacheEntryPool.Get().(*cacheEntry)
+	return new(cacheEntry)
 }
 
+// releaseEntry may be called more than once for the same entry: the backend
+// notifies a deletion for every read of an expired entry and again when the
+// entry is replaced. So the entry itself must not be recycled, otherwise a
+// late notification would wipe whatever the entry was reused for.
 func releaseEntry(e *cacheEntry) {
 	e.l.Lock()
 	e.storedTime = time.Time{}
@@ -126,5 +126,4 @@ func releaseEntry(e *cacheEntry) {
 		e.v = nil
 	}
 	e.l.Unlock()
-	cacheEntryPool.Put(e)
 }
